@@ -51,9 +51,9 @@ theorem toks_sepHead (ts : List Tok) (e : List Nat) (hok : ToksOk ts e) (he : En
 
 /-- behind any non-empty separator (or at the end of the line) the look-ahead condition of every
 command holds -/
-theorem cmdTail_of_sep (t : Track) (cmd : Cmd) (hn : CmdNums t cmd) (ts : List Tok) (e : List Nat) (hok : ToksOk ts e)
-    (hcov : ∀ c ∈ cmdsOf ts, Covered c) (he : EndOk e) (hts : ∀ c ts', ts ≠ Tok.cmd c :: ts') :
-    CmdTail cmd (toksText ts e) := by
+theorem cmdTail_of_sep (t : Track) (cmd : Cmd) (hn : LCmdNums t cmd) (ts : List Tok) (e : List Nat) (hok : ToksOk ts e)
+    (hcov : ∀ c ∈ cmdsOf ts, LCovered c) (he : EndOk e) (hts : ∀ c ts', ts ≠ Tok.cmd c :: ts') :
+    LCmdTail cmd (toksText ts e) := by
   have hsh := toks_sepHead ts e hok he hts
   have hb : ∀ n : Num, numBase n ≤ 16 := fun n => by unfold numBase; split <;> omega
   have h46 : (toksText ts e).head? ≠ some 46 := sepHead_head _ hsh 46 (by omega)
@@ -106,6 +106,13 @@ theorem cmdTail_of_sep (t : Track) (cmd : Cmd) (hn : CmdNums t cmd) (ts : List T
   | early n => exact numEnd_sepHead _ (hb n) _ hsh
   | measure n => exact numEnd_sepHead _ (hb n) _ hsh
   | shuffle n => exact numEnd_sepHead _ (hb n) _ hsh
+  | drum n => exact numEnd_sepHead _ (hb n) _ hsh
+  | simple sm n =>
+    cases n with
+    | some n => exact numEnd_sepHead _ (hb n) _ hsh
+    | none =>
+      have hns := toks_numSpan ts e hok hcov he.stopEnd
+      cases sm <;> first | trivial | (show (numSpan (toksText ts e)).1 = none; rw [hns])
   | _ => trivial
 
 /-! ### track addresses -/
@@ -407,7 +414,7 @@ theorem countBlanks_shape (bl rest : List Nat) (hbl : ∀ b ∈ bl, b = 32 ∨ b
 /-- behind the header (or at the start of a continuation line) one blank is required; then the
 blanks are skipped and, unless the line ends there, `parse_mml` runs from the first other byte -/
 theorem lineTail_toks (s : MmlState) (hs : Sane s) (b : Nat) (hb : b = 32 ∨ b = 9) (ts : List Tok) (e : List Nat)
-    (hok : ToksOk ts e) (hcov : ∀ c ∈ cmdsOf ts, Covered c) (he : EndOk e)
+    (hok : ToksOk ts e) (hcov : ∀ c ∈ cmdsOf ts, LCovered c) (he : EndOk e)
     (hsuf : suffix s = b :: toksText ts e) (hl : s.lastCmd = .parseMml) :
     lineTail s =
       if toksText (ts.drop (leadBlanks ts)) e = [] then .ok () (adv s (1 + leadBlanks ts))
@@ -460,7 +467,7 @@ theorem LineRes.trans {ids : List Nat} {c1 c2 : List Cmd} {s1 s2 s3 : MmlState}
 /-- the state a continuation line needs: the remembered track list and command -/
 def Ready (ids : List Nat) (s : MmlState) : Prop := s.trackList = ids ∧ s.lastCmd = .parseMml
 
-theorem toksText_nil_cmds (ts : List Tok) (e : List Nat) (h : toksText ts e = []) (hcov : ∀ c ∈ cmdsOf ts, Covered c) :
+theorem toksText_nil_cmds (ts : List Tok) (e : List Nat) (h : toksText ts e = []) (hcov : ∀ c ∈ cmdsOf ts, LCovered c) :
     cmdsOf ts = [] := by
   cases ts with
   | nil => rfl
@@ -469,7 +476,7 @@ theorem toksText_nil_cmds (ts : List Tok) (e : List Nat) (h : toksText ts e = []
     | blank b => simp [toksText, Tok.bytes] at h
     | bar => simp [toksText, Tok.bytes] at h
     | cmd c =>
-      obtain ⟨ch, r, hcr, _⟩ := covered_head c (hcov c (by simp [cmdsOf]))
+      obtain ⟨ch, r, hcr, _⟩ := lcovered_head c (hcov c (by simp [cmdsOf]))
       simp [toksText, Tok.bytes, hcr] at h
 
 /-- from the blank behind the header (or at the start of a continuation line) to the end of the line -/
@@ -481,7 +488,7 @@ theorem lineTail_run (ids : List Nat) (s : MmlState) (hs : Sane s) (b : Nat) (hb
     cases ids with
     | nil => exact absurd rfl hne
     | cons a _ => exact ⟨a, by simp⟩
-  have hcov : ∀ c ∈ cmdsOf ts, Covered c := cmdsOk_covered _ _ (hcmds id0 hid0)
+  have hcov : ∀ c ∈ cmdsOf ts, LCovered c := cmdsOk_covered _ _ (hcmds id0 hid0)
   obtain ⟨hdrop, hcd⟩ := toks_drop_lead ts e (leadBlanks ts) (Nat.le_refl _)
   rw [lineTail_toks s hs b hb ts e hok hcov he hsuf hready.2]
   by_cases hnil : toksText (ts.drop (leadBlanks ts)) e = []
